@@ -107,16 +107,32 @@ SeqRange(s) == {s[i] : i \in 1..Len(s)}
 SameBag(s, t) == Len(s) = Len(t) /\ \A x \in SeqRange(s) : Count(x, s) = Count(x, t)
 
 \* ------------------------------------------------------------- predicates
+\* Predicates are three-valued plus "missing": "T", "F", "M" (error("missing")),
+\* "E" (any other error, here: divide by zero).
 \* Comparison with a literal (compileConstCompare -> expr.Comparison): a null
-\* operand compares like the zero value, a missing operand is an error (the
-\* record is dropped by where / not matched by a switch case).
-Num(x) == IF x.t = "null" THEN 0 ELSE x.n
-PredT(p, v) ==
-  CASE p = "a>0"    -> LET x == Get(v, "a") IN x.t \in {"int", "null"} /\ Num(x) > 0
-    [] p = "b<2"    -> LET x == Get(v, "b") IN x.t \in {"int", "null"} /\ Num(x) < 2
-    [] p = "!(a>0)" -> LET x == Get(v, "a") IN x.t \in {"int", "null"} /\ ~(Num(x) > 0)
-    [] p = "true"   -> TRUE
+\* operand never matches (false), a missing operand is an error("missing").
+\* 1/a: integer division; a null divisor counts as zero.
+B3(b) == IF b THEN "T" ELSE "F"
+Pred3(p, v) ==
+  CASE p = "a>0"    -> LET x == Get(v, "a") IN IF x.t = "int" THEN B3(x.n > 0) ELSE IF x.t = "null" THEN "F" ELSE "M"
+    [] p = "b<2"    -> LET x == Get(v, "b") IN IF x.t = "int" THEN B3(x.n < 2) ELSE IF x.t = "null" THEN "F" ELSE "M"
+    [] p = "!(a>0)" -> LET x == Get(v, "a") IN IF x.t = "int" THEN B3(~(x.n > 0)) ELSE IF x.t = "null" THEN "T" ELSE "M"
+    [] p = "1/a>0"  -> LET x == Get(v, "a") IN
+                       IF x.t = "null" \/ (x.t = "int" /\ x.n = 0) THEN "E"
+                       ELSE IF x.t = "int" THEN B3(x.n = 1) ELSE "M"
+    [] p = "true"   -> "T"
+PredT(p, v) == Pred3(p, v) = "T"
 AllT(ps, v) == \A i \in 1..Len(ps) : PredT(ps[i], v)
+ErrCapable(ps) == \E i \in 1..Len(ps) : ps[i] = "1/a>0"
+DIVERR == [t |-> "errv", n |-> 1, fs |-> <<>>]      \* error("divide by zero")
+\* The where operator (expr.filterApplier over the expr.And chain): the first
+\* conjunct that is not true decides; false and missing drop the value, any
+\* other error is passed downstream in place of the value.
+RECURSIVE Conj3(_, _)
+Conj3(ps, v) == IF ps = <<>> THEN "T"
+                ELSE LET r == Pred3(ps[1], v) IN IF r = "T" THEN Conj3(Tail(ps), v) ELSE r
+WhereOne(ps, v) == LET r == Conj3(ps, v) IN
+                   IF r = "T" THEN <<v>> ELSE IF r = "E" THEN <<DIVERR>> ELSE <<>>
 
 \* ---------------------------------------------------------- record helpers
 SetField(v, l, x) ==       \* put: replace in place or append
@@ -130,11 +146,11 @@ MapOne(op, v) ==
   IF v.t # "rec" THEN
        \* an error value: field references are missing; cut builds a record of them,
        \* put/drop/rename hand the value on unchanged
-       CASE op.k = "where" -> IF AllT(op.ps, v) THEN <<v>> ELSE <<>>
+       CASE op.k = "where" -> WhereOne(op.ps, v)
          [] op.k = "cut"   -> <<RecV(<<Fld(op.l, ERR)>>)>>
          [] op.k = "yield" -> <<ERR>>
          [] OTHER -> <<v>>
-  ELSE CASE op.k = "where"  -> IF AllT(op.ps, v) THEN <<v>> ELSE <<>>
+  ELSE CASE op.k = "where"  -> WhereOne(op.ps, v)
     [] op.k = "cut"    -> <<RecV(<<Fld(op.l, Get(v, op.r))>>)>>
     [] op.k = "drop"   -> LET w == DropField(v, op.f) IN IF w.fs = <<>> THEN <<>> ELSE <<w>>
     [] op.k = "put"    -> <<SetField(v, op.l, Get(v, op.r))>>
@@ -327,7 +343,8 @@ SemOp(op, st) ==
 SemSeq(ops, st) == IF ops = <<>> THEN st ELSE SemSeq(Tail(ops), SemOp(ops[1], st))
 
 \* A program is [src |-> [filter |-> <<preds>>, sk |-> sort key], ops |-> <<...>>].
-\* The source filter is the pushdown of zbuf.NewScanner: same evaluator as where.
+\* The source filter is the pushdown of zbuf.NewScanner: same evaluator as where,
+\* but only values for which it is true are delivered (errors are not).
 \* The declared sort key does not change what the source delivers.
 Sem(prog, input) ==
   LET s0 == SelectSeq(input, LAMBDA v : AllT(prog.src.filter, v))
